@@ -10,6 +10,7 @@ package main
 
 import (
 	"fmt"
+	"math/big"
 	"go/ast"
 	"go/parser"
 	"go/token"
@@ -19,7 +20,9 @@ import (
 	"strconv"
 	"strings"
 
+	"github.com/LemoFoundationLtd/lemochain-core/chain/account"
 	"github.com/LemoFoundationLtd/lemochain-core/chain/types"
+	"github.com/LemoFoundationLtd/lemochain-core/common"
 )
 
 // checkAnc: GetUnConfirmByHeight against the specification's parent map.
@@ -175,6 +178,32 @@ func c09Boot(c *Ctx, idx int) {
 				}
 			}
 			gen++
+			if c.Rnd.Intn(3) == 0 {
+				// the way chain/genesis.go writes the genesis accounts: account.NewManager(zero hash) -> SetBalance -> Finalise ->
+				// Save(hash of the height-0 block), which Puts with dye CurrentBlockHeight() = 0 for a manager without a base block
+				// (review T2/M7: `return 0` -> `return 1` there went unnoticed).  Same op line for the model as the direct Put.
+				op := fmt.Sprintf("put %d %d %d", g, ki, val(g, ki, gen%9))
+				v := int64(val(g, ki, gen%9))
+				out := Safe(func() string {
+					am := account.NewManager(common.Hash{}, k.db)
+					am.GetAccount(k.keys[ki]).SetBalance(big.NewInt(v))
+					if err := am.Finalise(); err != nil {
+						return "finalise:" + err.Error()
+					}
+					if err := am.Save(k.hashOf(g)); err != nil {
+						return "save:" + err.Error()
+					}
+					return "ok"
+				})
+				k.record(op, out)
+				step++
+				k.exec("dump")
+				k.exec("shape")
+				k.checkViews(op)
+				k.checkTree(op)
+				c.Count("boot:put-via-manager-zero-base:" + out)
+				continue
+			}
 			do(fmt.Sprintf("put %d %d %d", g, ki, val(g, ki, gen%9)))
 		case r < 80: // Get: own account, an account only ANOTHER height-0 block wrote, an absent one
 			if len(live) == 0 {
